@@ -1,11 +1,11 @@
-\* C18 framing NEGATIVE config: the header counts runes -- must violate Lossless (a multi-byte body is cut short, decoding fails).
+\* C18 framing NEGATIVE config: a decoder that rejects a response whose result is JSON null -- must violate Lossless.
 CONSTANTS
   Cap = 40
   Msgs <- SmallMsgs
   MaxMsgs = 2
-  LenMode = "runes"
+  LenMode = "bytes"
   IdDecode = "strict"
-  NullResult = "ok"
+  NullResult = "rejected"
   Variants <- VariantsDef
   ChunkMax = 2
   AllCuts = TRUE
